@@ -13,8 +13,50 @@ the message end, size_bytes(m, c)) are part of C02/C03's cursor modes on the sam
 """
 import re
 
-from .. import build, codec, common as C, gen_cur as GC, gen_ops as O, refmodel as R, schema as S
+from .. import build, codec, common as C, gen_cur as GC, gen_driver as GD, gen_ops as O, refmodel as R, schema as S
 from ..findings import Report
+
+
+FORMS = ["cursor_range", "cursor_subrange(pos)", "cursor_subrange(pos,count)", "cursor_begin/cursor_end"]
+
+
+def check_range(rep, p, cfg, name, image, c, r):
+    _, asserted, count, cur, addrs, wstate, afunc, dump = r
+    asserted, count, cur = int(asserted), int(count), int(cur)
+    rep.evaluation()
+    rep.count("range_iterations")
+    rep.count("range_entries_visited", count)
+    rep.count("assertions_seen", asserted)
+    what = "%s over group `%s` (size %d) at level %s%s with pos=%d count=%d, cursor at %d" % (
+        FORMS[c["form"]], c["group"], c["size"], "/".join(c["path"]) or "<message>", c["idx"], c["pos"], c["count"], c["state"])
+    replay = {"schema": name, "schema_xml": p.xml, "config": str(cfg), "message": c["msg"].name, "image": image.hex(), "command": c["cmd"],
+              "expected": {"legal": c["legal"], "entries_at": c["exp_addrs"], "cursor_end": c["exp_end"], "dump": c["exp_lines"][:40]},
+              "observed": {"asserted": asserted, "entries": count, "cursor": cur, "entries_at": addrs, "dump": dump[:2000], "assert_in": afunc}}
+    site = "cursor-range/form%d" % c["form"]
+    rep.nontrivial(name, c["msg"].name, tuple(c["path"]), "range", c["form"], c["legal"], min(c["size"], 2), min(c["pos"], 2))
+    if not c["legal"]:
+        if not asserted:
+            rep.violation("missing-assert", site, "%s/%s msg %s: precondition violation was not reported (%d entries visited): %s" % (
+                name, cfg, c["msg"].name, count, what), replay)
+        return
+    if asserted:
+        rep.violation("spurious-assert", site, "%s/%s msg %s: legal iteration asserted in %s: %s" % (name, cfg, c["msg"].name, afunc, what), replay)
+        return
+    got_addrs = [int(x) for x in addrs.split(",") if x and x != "-"]
+    if count != len(c["exp_addrs"]) or got_addrs != c["exp_addrs"]:
+        rep.violation("range-entries", site, "%s/%s msg %s: visited %d entries at %s, random access has %d entries at %s: %s" % (
+            name, cfg, c["msg"].name, count, got_addrs[:6], len(c["exp_addrs"]), c["exp_addrs"][:6], what), replay)
+        return
+    lines = [x for x in dump.split("|") if x]
+    if lines != c["exp_lines"]:
+        d = codec.first_diff(c["exp_lines"], lines)
+        rep.violation("value-mismatch", site, "%s/%s msg %s: entry dump differs at line %s: expected `%s` observed `%s`: %s" % (
+            name, cfg, c["msg"].name, d[0], d[1][:120], d[2][:120], what), replay)
+    if cur != c["exp_end"]:
+        rep.violation("cursor-position", site, "%s/%s msg %s: cursor left at %d, end of the last visited entry is %d: %s" % (
+            name, cfg, c["msg"].name, cur, c["exp_end"], what), replay)
+    if wstate != "unchanged":
+        rep.violation("buffer-state", site, "%s/%s msg %s: iteration modified the buffer: %s" % (name, cfg, c["msg"].name, what), replay)
 
 
 def main():
@@ -64,8 +106,8 @@ def main():
         batches = []     # one batch per image: ("IMG hex", [cases])
         for mi, msg in enumerate(p.schema.messages):
             rng = C.rng_for(rep.seed, "C04", p.schema.name, msg.name)
-            for inflate in (False, True):
-                vals = R.gen_values(m, msg, rng, max_group=2, max_data=4, inflate=inflate, force=True)
+            for inflate, force in ((False, True), (True, True), (True, False)):
+                vals = R.gen_values(m, msg, rng, max_group=3 if not force else 2, max_data=4, inflate=inflate, force=force)
                 if inflate:
                     pre = bytes(rng.getrandbits(8) for _ in range(R.message_size(m, msg, vals)))
                     (arena, end), _ = R.encode_message(m, msg, vals, prefill=pre)
@@ -93,6 +135,41 @@ def main():
                         level, v, start, bl = loc
                         li = GC.LevelInstance(m, level, v, start, bl)
                         if not li.members:
+                            continue
+                        # cursor ranges and subranges of every group of this level instance
+                        for gi, grp in enumerate(level.groups):
+                            d = [x for x in li.members if x["kind"] == "group" and x["name"] == grp.name][0]
+                            entries = v.groups[grp.name]
+                            gbl = m.level_layout(grp)[2] + (entries[0].extra if entries else v.groups.get(("extra", grp.name), 0))
+                            starts = [d["start"] + d["hdr"]]
+                            for ev in entries:
+                                starts.append(starts[-1] + R.level_size(m, grp, ev, gbl))
+                            n = len(entries)
+                            combos = [(0, 0, 0), (3, 0, 0)]
+                            for pos in range(n + 2):
+                                combos.append((1, pos, 0))
+                                for cnt in range(max(0, n - pos) + 2):
+                                    combos.append((2, pos, cnt))
+                            for form, pos, cnt in combos:
+                                if form in (0, 3):
+                                    legal, first, num = True, 0, n
+                                elif form == 1:
+                                    legal, first, num = pos < n, pos, n - pos
+                                else:
+                                    legal, first, num = (pos < n and cnt <= n - pos), pos, cnt
+                                exp_lines = []
+                                if legal:
+                                    for i in range(num):
+                                        GD.expected_level(m, grp, entries[first + i], "e[%d]." % i, False, exp_lines, gbl)
+                                cur0 = starts[first] if first <= n else starts[-1]
+                                cid = "r%d" % len(cases)
+                                cases.append(dict(id=cid, kind="rng", msg=msg, path=path, idx=idx, li=li, group=grp.name, form=form, pos=pos,
+                                                  count=cnt, legal=legal, inflate=inflate, size=n, state=cur0,
+                                                  exp_addrs=[starts[first + i] for i in range(num)] if legal else [],
+                                                  exp_end=(starts[first + num] if legal else cur0), exp_lines=exp_lines,
+                                                  cmd="RNG %s %x %x %x%s %d %x %x %x %x" % (
+                                                      cid, mi, lid, len(idx), "".join(" %x" % i for i in idx), cur0, gi, form, pos, cnt)))
+                        if not force:
                             continue
                         nact = []
                         for mem_i, d in enumerate(li.members):
@@ -153,6 +230,8 @@ def main():
                 txt = o.decode(errors="replace")
                 for mm in re.finditer(r"^A (\S+) (\d) (\S+) (-?\d+) (\S+) (\S+)$", txt, re.M):
                     res[mm.group(1)] = mm.groups()
+                for mm in re.finditer(r"^G (\S+) (\d) (\d+) (-?\d+) (\S+) (\S+) (\S+) #(.*)$", txt, re.M):
+                    res[mm.group(1)] = mm.groups()
                 ub = build.ubsan_reports(txt)
                 if rc == 0 and not to:
                     return res, deaths, ub
@@ -175,6 +254,12 @@ def main():
             for msg_, f, line in ub:
                 rep.violation("ubsan:" + msg_, f, "%s/%s: %s" % (name, cfg, line), {"schema": name, "schema_xml": p.xml, "report": line})
             for c, rc, tail in deaths:
+                if c.get("kind") == "rng":
+                    rep.violation("asan" if "AddressSanitizer" in tail else "crash", "cursor-range/form%d/%s" % (c["form"], "legal" if c["legal"] else "illegal"),
+                                  "%s/%s msg %s: interpreter died (rc=%s) iterating group %s (form %d pos %d count %d, size %d): %s" % (
+                                      name, cfg, c["msg"].name, rc, c["group"], c["form"], c["pos"], c["count"], c["size"], tail[:600]),
+                                  {"schema": name, "schema_xml": p.xml, "config": str(cfg), "image": image.hex(), "command": c["cmd"]})
+                    continue
                 d = c["li"].members[c["member"]]
                 klass = "asan" if "AddressSanitizer" in tail else "crash"
                 rep.violation(klass, "%s/%s/%s" % (d["kind"], GC.WRAPPERS[c["w"]], "legal" if c["legal"] else "illegal"),
@@ -185,6 +270,10 @@ def main():
             for c in cases:
                 r = res.get(c["id"])
                 if r is None:
+                    continue
+                if c.get("kind") == "rng":
+                    check_range(rep, p, cfg, name, image, c, r)
+                    states.add((name, c["msg"].name, tuple(c["path"]), tuple(c["idx"]), c["inflate"], c["state"]))
                     continue
                 _, asserted, text, cur, wstate, afunc = r
                 asserted, cur = int(asserted), int(cur)
